@@ -117,7 +117,7 @@ func TestVerifC12HTTP(t *testing.T) {
 			return verifx.C12ConcByName(c.Conc)
 		}
 		switch c.Peer {
-		case "out6":
+		case "out6", "inCn":
 			return nil // no such source address on this host
 		case "zoneC":
 			return ll
